@@ -911,13 +911,13 @@ func (s *hdSystem) quiesce() {
 		if s.loopBusy.Load() == 0 && s.backend.inflight.Load() == 0 &&
 			int(s.hub.readPumpActive.Load()) == s.openClients() && s.idleDump() {
 			idle++
-			if idle >= 3 {
+			if idle >= 4 {
 				return
 			}
 		} else {
 			idle = 0
 		}
-		time.Sleep(300 * time.Microsecond)
+		time.Sleep(400 * time.Microsecond)
 	}
 	s.unsettled++
 }
